@@ -3,9 +3,11 @@
 Deductive: prefixed-name lookup, tree evaluation against the denotation of the seven tree forms, conversion
 (in_units / with_units / to_SI_from / from_SI_to), the quantity algebra (shared with C11).
 Data obligation (exhaustive over a finite table): every unit definition and every prefix against SI definitions
-written here independently.  The recursive-descent parser itself is covered by a bounded stand-in only."""
+written here independently.  The recursive-descent parser: C10parser.py (deductive, abstract tokens); the tokenizer regex and the
+parser end to end are additionally covered by the bounded stand-in."""
 import ast
 import math
+import re
 from fractions import Fraction
 
 import z3
@@ -326,7 +328,7 @@ for u in C11.UNITS:
 
 
 # ---- bounded stand-in for the recursive-descent parser (never counted as proved) -------------------------
-ALPHABET = ['2', '0.5', '-3', 'm', 's', 'kg', '*', '/', '^', '(', ')']
+ALPHABET = ['2', '0.5', '-3', 'm', 's', 'kg', '*', '/', '^', '(', ')', 'inf', '1e3']      # 'inf': a word float() accepts; '1e3': exponent notation
 DIMS = {'m': (1, 0, 0), 's': (0, 0, 1), 'kg': (0, 1, 0)}
 
 
@@ -356,11 +358,8 @@ def spec_eval(tokens):
         return t
 
     def isnum(t):
-        try:
-            float(t)
-            return True
-        except (TypeError, ValueError):
-            return False
+        # a number is written with digits (sign, point, exponent); words such as inf / nan are names
+        return t is not None and re.fullmatch(r'-?(\d+\.?\d*|\.\d+)([eE][-+]?\d+)?', t) is not None
 
     def number():
         t = take()
@@ -370,7 +369,7 @@ def spec_eval(tokens):
                 raise _Err()
         if t is None or not isnum(t):
             raise _Err()
-        return float(t) if '.' in t else int(t)
+        return float(t) if ('.' in t or 'e' in t or 'E' in t) else int(t)
 
     def base():
         t = peek()
@@ -479,3 +478,6 @@ def standin_parser(tier, seed):
 
 
 STANDINS = [standin_parser]
+
+from . import C10parser     # noqa: E402
+UNITS = UNITS + C10parser.UNITS      # the recursive-descent parser against the documented grammar (abstract tokens)
